@@ -25,6 +25,8 @@ SCRIPTS = [
     # one side half-closes its receive direction and goes on transmitting; only that direction is serviced afterwards
     "C3 v v SR S3 h SL h S1 h",
     "v S1 v v CR C3 g CL g C1 g",
+    # the application takes what has arrived out of the client's receive buffer (clearRxbs) and goes on receiving
+    "v S3 v v K S1 v SL v K v S3 v v",
 ]
 
 
@@ -89,6 +91,7 @@ def harness(job, ch):
         client = w.clients[0]
         ctx, stx = bytearray(), bytearray()
         srx_taken = bytearray()
+        crx_taken = bytearray()      # what the application already took out of the client's receive buffer
 
         def half_round(which):
             try:
@@ -120,7 +123,7 @@ def harness(job, ch):
             if rem is not None and not refresh:
                 rem.refreshable = False      # the application may switch activity-refreshing of the connection's timer off
             srx = bytes(rem.rxbs) if rem is not None else b""
-            crx = bytes(app_rx)
+            crx = bytes(crx_taken) + bytes(app_rx)
             if not bytes(ctx).startswith(srx):
                 viol.append(("prefix:client-to-server:%s" % ("tls" if tls else "plain"),
                              "%s: server received %r, client transmitted %r" % (stage, srx[:40], bytes(ctx)[:40])))
@@ -156,6 +159,9 @@ def harness(job, ch):
             elif step in ("h", "g"):
                 half_round(step)
                 check("half round %d" % k)
+            elif step == "K":
+                crx_taken.extend(app_rx)
+                client.clearRxbs()
             elif step == "t":
                 tymist.tick()
             elif step == "X":
@@ -204,9 +210,9 @@ def harness(job, ch):
                     viol.append(("liveness:client-to-server:%s" % ("tls" if tls else "plain"),
                                  "after %d healthy rounds server has %d of %d bytes, client txbs %d, supplied tx buffer %d" % (
                                      need, len(srx), len(ctx), len(client.txbs), len(app_tx))))
-                if half != "g" and (bytes(app_rx) != bytes(stx) or (rem is not None and rem.txbs)):
+                if half != "g" and (bytes(crx_taken) + bytes(app_rx) != bytes(stx) or (rem is not None and rem.txbs)):
                     viol.append(("liveness:server-to-client:%s" % ("tls" if tls else "plain"),
-                                 "after %d healthy rounds client has %d of %d bytes" % (need, len(app_rx), len(stx))))
+                                 "after %d healthy rounds client has %d of %d bytes" % (need, len(crx_taken) + len(app_rx), len(stx))))
         for where, site, name in w.escaped:
             viol.append(("raises:%s:%s" % (name, site), "%s raised %s at %s without any fault injected" % (where, name, site)))
         obs = (tuple(states), tuple(w.net.log[-30:]))
